@@ -17,6 +17,7 @@ import (
 
 	sigrepo "github.com/lidofinance/dc4bc/client/repositories/signature"
 	"github.com/lidofinance/dc4bc/client/types"
+	fsmtypes "github.com/lidofinance/dc4bc/fsm/types"
 	"github.com/lidofinance/dc4bc/fsm/types/requests"
 	"github.com/lidofinance/dc4bc/pkg/wc_rotation"
 	"github.com/lidofinance/dc4bc/storage"
@@ -54,6 +55,11 @@ type sBatch struct {
 	// replaced; identifier, type and round untouched); the machine signs what it is given, and the node must refuse the
 	// result because the request that comes back is not the one it issued. The operator then carries the genuine file.
 	Tamper int `json:"tamper,omitempty"`
+	// EarlyRecon: right after its proposal the proposer's node also broadcasts a `signature_reconstructed` message for the
+	// batch in which the first message carries another payload and a junk signature (a faulty or hostile proposer node;
+	// the message is correctly signed with its communication key). What the honest participants sign, reconstruct,
+	// store under their own names and publish must still be the proposed bytes.
+	EarlyRecon bool `json:"early_recon,omitempty"`
 }
 
 type sFault struct {
@@ -169,7 +175,7 @@ func refExpand(tasks []sTask) []refMsg {
 			out = append(out, refMsg{ID: t.ID, Payload: t.Payload})
 			continue
 		}
-		for p := t.Start; p < t.End; p++ {
+		for p := max(t.Start, 0); p < t.End && p < len(lines); p++ { // (a range past the list has no reference expansion beyond it)
 			idx, _ := strconv.ParseUint(lines[p], 10, 64)
 			root := oracle.RefSigningRoot(idx)
 			out = append(out, refMsg{ID: lines[p], Payload: root[:], Baked: true, ValIdx: int64(idx)})
@@ -199,6 +205,7 @@ type batchObs struct {
 	Answered map[int]bool
 	Proposed bool
 	GroupKey []byte // set for a batch signed in another round than the fixture's main one
+	Hostile  string // user name of a proposer whose node broadcast a forged copy of the batch (EarlyRecon)
 }
 
 type sigObs struct {
@@ -474,6 +481,15 @@ func runSigningCase(fx *world.Fixture, p sPlan, root string) *sigObs {
 			w.PostSigned(b.Proposer, fx.Round, "event_signing_start", bz, "")
 		}
 		bo.Proposed = true
+		if b.EarlyRecon && len(bo.Ref) > 0 {
+			bo.Hostile = w.Names[b.Proposer]
+			first := bo.Ref[0]
+			junk := make([]byte, 96)
+			junk[0] = 0xc0
+			bz, _ := json.Marshal([]fsmtypes.ReconstructedSignature{{File: "elsewhere", MessageID: first.ID, BatchID: bo.BatchID, Signature: junk,
+				SrcPayload: append([]byte("not what was proposed: "), first.Payload...), Username: w.Names[b.Proposer], DKGRoundID: fx.Round}})
+			w.PostSigned(b.Proposer, fx.Round, "signature_reconstructed", bz, "")
+		}
 
 		if b.Tamper > 0 && !b.ViaAPI {
 			i := (b.Tamper - 1) % p.N
